@@ -245,8 +245,34 @@ def oracle_columns(case):
         atoms = [cfg['cols'].get(str(j), {'form': 'default'}) for j in range(d)]
         dist = {names[int(k)]: build_atom(v, df.iloc[:, int(k)].to_numpy()) for k, v in cfg['cols'].items()}
     model = GaussianMultivariate(distribution=dist)
+    given = dict(dist) if isinstance(dist, dict) else None
     value(model.fit, df.copy(), what='GaussianMultivariate.fit')
+    if given is not None:
+        # the configuration is the caller's object: a fallback is a property of one fit, not a new configuration
+        require(list(dist) == list(given) and all(dist[k] is given[k] for k in given),
+                'GaussianMultivariate.fit changed the distribution dict it was given: %r -> %r' % (given, dist), tag='config-mutated')
     cls = ['config:' + cfg['mode']]
+    if cfg['mode'] == 'dict':
+        # the same configuration after a fit in which a column had to fall back: the column is again modelled by the
+        # configured distribution as soon as that can be fitted (same model object, and a new model given the same dict)
+        from vlib import support
+
+        conf = dict(dist)
+        conf[names[0]] = support.BoomOnNegative
+        m2 = GaussianMultivariate(distribution=conf)
+        x0 = df.iloc[:, 0].to_numpy().astype(float)
+        neg, pos = df.copy(), df.copy()
+        neg[names[0]] = x0 - x0.max() - 1.0
+        pos[names[0]] = x0 - x0.min() + 1.0
+        value(m2.fit, neg, what='GaussianMultivariate.fit (column 0 not fittable)')
+        t_neg = value(m2.univariates[0].to_dict, what='to_dict')['type'].rsplit('.', 1)[1]
+        require(t_neg == 'GaussianUnivariate', 'column %r cannot be fitted by its configured distribution but is modelled by %s' % (names[0], t_neg), tag='fallback-type')
+        for label, mm in (('the same model', m2), ('a new model given the same dict', GaussianMultivariate(distribution=conf))):
+            value(mm.fit, pos.copy(), what='GaussianMultivariate.fit (after a fallback)')
+            t_pos = value(mm.univariates[0].to_dict, what='to_dict')['type'].rsplit('.', 1)[1]
+            require(t_pos == 'UniformUnivariate', 'after a fit in which column %r fell back to a Gaussian, %s fitted on data the configured distribution accepts '
+                    'models the column by %s' % (names[0], label, t_pos), tag='fallback-sticks')
+        cls.append('refit-after-fallback')
     fallback = False
     for j, (atom, uni) in enumerate(zip(atoms, model.univariates)):
         x = df.iloc[:, j].to_numpy()
